@@ -496,3 +496,424 @@ def write_module(m, root, gomod_line=None, testify=True):
         p = root / rel
         p.parent.mkdir(parents=True, exist_ok=True)
         p.write_text(content)
+
+
+# =======================================================================================
+# OPTIONAL section (C02): embedding shapes.  Nothing above uses it; modules without the key
+# "extra_decls" are rendered exactly as before.
+#
+#   m["extra_decls"] = [decl, ...]   further type declarations, written to one extra file per
+#                                     package (<pkg dir>/zz_extra.go) by extra_decl_files(m)
+#   decl = {"pkg": "" (source package) | <ext package path>, "kind": "iface" | "alias" | "defined",
+#           "name": N, "tparams": [{"n","c","cmp"}], "methods": [{"n","sig"}], "embeds": [ty],   (iface)
+#           "target": ty}                                                                       (alias: type N = target; defined: type N target)
+#   STD_DECLS / foreign_extra_decls(ext): the declarations of the stdlib / foreign interfaces that
+#   may be embedded; decl_table(m) collects everything embeddable, spec_method_set() is the
+#   Python twin of coq/Gen/MethodSet.v (used by the generator to stay inside valid Go).
+# =======================================================================================
+def _P(n, t):
+    return {"n": n, "t": t}
+
+
+def _S(params, results, variadic=False):
+    return {"params": params, "variadic": variadic, "results": results}
+
+
+def _I(pkg, name, methods=(), embeds=(), tparams=()):
+    return {"pkg": pkg, "kind": "iface", "name": name, "tparams": list(tparams), "methods": list(methods), "embeds": list(embeds)}
+
+
+_BYTES = {"k": "slice", "e": basic("byte")}
+_NERR = [_P("n", basic("int")), _P("err", basic("error"))]
+
+# further stdlib packages that C02 modules may mention (pass std=STD + C02_STD to Gen)
+C02_STD = [
+    {"path": "fmt", "name": "fmt", "types": [("Stringer", "iface")]},
+    {"path": "hash", "name": "hash", "types": [("Hash", "iface"), ("Hash32", "iface")]},
+    {"path": "sort", "name": "sort", "types": [("Interface", "iface")]},
+]
+
+STD_DECLS = [
+    _I("io", "Reader", [{"n": "Read", "sig": _S([_P("p", _BYTES)], _NERR)}]),
+    _I("io", "Writer", [{"n": "Write", "sig": _S([_P("p", _BYTES)], _NERR)}]),
+    _I("io", "Closer", [{"n": "Close", "sig": _S([], [_P("", basic("error"))])}]),
+    _I("io", "Seeker", [{"n": "Seek", "sig": _S([_P("offset", basic("int64")), _P("whence", basic("int"))], [_P("", basic("int64")), _P("", basic("error"))])}]),
+    _I("io", "ReadWriter", embeds=[named("io", "Reader"), named("io", "Writer")]),
+    _I("io", "ReadCloser", embeds=[named("io", "Reader"), named("io", "Closer")]),
+    _I("io", "WriteCloser", embeds=[named("io", "Writer"), named("io", "Closer")]),
+    _I("io", "ReadWriteCloser", embeds=[named("io", "Reader"), named("io", "Writer"), named("io", "Closer")]),
+    _I("io", "ReadSeeker", embeds=[named("io", "Reader"), named("io", "Seeker")]),
+    _I("io", "ReadWriteSeeker", embeds=[named("io", "Reader"), named("io", "Writer"), named("io", "Seeker")]),
+    _I("io", "StringWriter", [{"n": "WriteString", "sig": _S([_P("s", basic("string"))], _NERR)}]),
+    _I("fmt", "Stringer", [{"n": "String", "sig": _S([], [_P("", basic("string"))])}]),
+    _I("context", "Context", [
+        {"n": "Deadline", "sig": _S([], [_P("deadline", named("time", "Time")), _P("ok", basic("bool"))])},
+        {"n": "Done", "sig": _S([], [_P("", {"k": "chan", "dir": "recv", "e": {"k": "struct", "fields": []}})])},
+        {"n": "Err", "sig": _S([], [_P("", basic("error"))])},
+        {"n": "Value", "sig": _S([_P("key", basic("any"))], [_P("", basic("any"))])}]),
+    _I("hash", "Hash", [
+        {"n": "Sum", "sig": _S([_P("b", _BYTES)], [_P("", _BYTES)])},
+        {"n": "Reset", "sig": _S([], [])},
+        {"n": "Size", "sig": _S([], [_P("", basic("int"))])},
+        {"n": "BlockSize", "sig": _S([], [_P("", basic("int"))])}], embeds=[named("io", "Writer")]),
+    _I("hash", "Hash32", [{"n": "Sum32", "sig": _S([], [_P("", basic("uint32"))])}], embeds=[named("hash", "Hash")]),
+    _I("sort", "Interface", [
+        {"n": "Len", "sig": _S([], [_P("", basic("int"))])},
+        {"n": "Less", "sig": _S([_P("i", basic("int")), _P("j", basic("int"))], [_P("", basic("bool"))])},
+        {"n": "Swap", "sig": _S([_P("i", basic("int")), _P("j", basic("int"))], [])}]),
+    _I("net/http", "Handler", [{"n": "ServeHTTP", "sig": _S([_P("", named("net/http", "ResponseWriter")), _P("", {"k": "ptr", "e": named("net/http", "Request")})], [])}]),
+]
+
+
+def foreign_extra_decls(ext):
+    """Static chain of foreign interfaces over the first three ext packages:
+    ext3.Top -> ext2.Deep -> ext.Chain -> ext.Handler (depth 4), two generic ones."""
+    if len(ext) < 3:
+        return []
+    a, b, c = ext[0]["path"], ext[1]["path"], ext[2]["path"]
+    T, K, V = {"k": "tparam", "n": "T"}, {"k": "tparam", "n": "K"}, {"k": "tparam", "n": "V"}
+    anyc = basic("any")
+    cmpc = {"k": "named", "pkg": None, "n": "comparable", "targs": []}
+    return [
+        _I(a, "Chain", [{"n": "Shutdown", "sig": _S([_P("c", {"k": "ptr", "e": named(a, "Client")}), _P("force", basic("bool"))], [_P("", basic("error"))])}],
+           embeds=[named(a, "Handler")]),
+        _I(a, "Source", [{"n": "Next", "sig": _S([], [_P("", T), _P("", basic("bool"))])}], tparams=[{"n": "T", "c": anyc, "cmp": False}]),
+        _I(b, "Deep", [{"n": "Flush", "sig": _S([_P("n", basic("int"))], [_P("", basic("error"))])}],
+           embeds=[named(a, "Chain"), named("io", "Closer")]),
+        _I(b, "Stream", [{"n": "StreamKey", "sig": _S([], [_P("", K)])}], embeds=[named(a, "Source", [V])],
+           tparams=[{"n": "K", "c": cmpc, "cmp": True}, {"n": "V", "c": anyc, "cmp": False}]),
+        _I(c, "Top", [{"n": "TopName", "sig": _S([_P("opts", {"k": "slice", "e": named(b, "Opt")})], [_P("", basic("string"))], True)}],
+           embeds=[named(b, "Deep")]),
+    ]
+
+
+def base_local_decls(m):
+    """The interfaces that src_files() always declares in the source package."""
+    Tp = {"k": "tparam", "n": "T"}
+    out = [
+        _I("", "LocalIface", [{"n": "LocalMethod", "sig": _S([_P("l", named("", "Local"))], [_P("", named("", "Key")), _P("", basic("error"))])}]),
+        _I("", "Gen", [{"n": "Produce", "sig": _S([], [_P("", Tp)])}, {"n": "Consume", "sig": _S([_P("v", Tp)], [_P("", basic("error"))])}],
+           tparams=[{"n": "T", "c": basic("any"), "cmp": False}]),
+    ]
+    for e in m["ext"]:
+        out.append(_I(e["path"], "Handler", [{"n": "Handle", "sig": _S([_P("c", {"k": "ptr", "e": named(e["path"], "Client")})], [_P("", basic("error"))])}]))
+    return out
+
+
+def decl_table(m):
+    """(package path, name) -> declaration, for everything an interface of m may embed or be:
+    stdlib, foreign, the fixed local interfaces, m["extra_decls"] and m["ifaces"].  "" = source package."""
+    t = {}
+    for d in STD_DECLS + base_local_decls(m) + list(m.get("extra_decls", [])):
+        t[(d["pkg"], d["name"])] = d
+    for i in m["ifaces"]:
+        t[("", i["name"])] = _I("", i["name"], i["methods"], i["embeds"], i["tparams"])
+    return t
+
+
+def _map_ty(f, t):
+    k = t["k"]
+    if k in ("named", "alias"):
+        return dict(t, targs=[f(a) for a in t["targs"]])
+    if k in ("ptr", "slice", "array", "chan"):
+        return dict(t, e=f(t["e"]))
+    if k == "map":
+        return dict(t, key=f(t["key"]), e=f(t["e"]))
+    if k == "func":
+        return dict(t, sig=_map_sig(f, t["sig"]))
+    if k == "struct":
+        return dict(t, fields=[dict(x, t=f(x["t"])) for x in t["fields"]])
+    if k == "iface":
+        return dict(t, methods=[dict(x, sig=_map_sig(f, x["sig"])) for x in t["methods"]], embeds=[f(e) for e in t["embeds"]])
+    if k == "union":
+        return dict(t, terms=[dict(x, t=f(x["t"])) for x in t["terms"]])
+    return t
+
+
+def _map_sig(f, s):
+    return {"params": [dict(p, t=f(p["t"])) for p in s["params"]], "variadic": s["variadic"], "results": [dict(p, t=f(p["t"])) for p in s["results"]]}
+
+
+def subst_ty(t, env):
+    if t["k"] == "tparam":
+        return env.get(t["n"], t)
+    return _map_ty(lambda x: subst_ty(x, env), t)
+
+
+def _erase(t):
+    """type identity of signatures: parameter / result names do not matter"""
+    if t["k"] == "func":
+        s = t["sig"]
+        return {"k": "func", "sig": {"params": [{"n": "", "t": _erase(p["t"])} for p in s["params"]], "variadic": s["variadic"],
+                                     "results": [{"n": "", "t": _erase(p["t"])} for p in s["results"]]}}
+    return _map_ty(_erase, t)
+
+
+class SpecError(Exception):
+    pass
+
+
+def spec_method_set(table, t, pkg="", fuel=12):
+    """Python twin of method_set_of (coq/Gen/MethodSet.v): the completed method set of the interface
+    type t written in package pkg, as [{"pkg","n","sig"}] in go/types order.  Raises SpecError."""
+    import json as _json
+
+    def embed(e, pkg, sub, fuel):
+        if fuel == 0:
+            raise SpecError("out of fuel")
+        k = e["k"]
+        if k == "basic" and e["n"] == "error":
+            return [{"pkg": "", "n": "Error", "sig": _S([], [_P("", basic("string"))])}]
+        if k == "basic" and e["n"] == "any":
+            return []
+        if k == "iface":
+            return collect(pkg, sub, e["methods"], e["embeds"], fuel - 1)
+        if k not in ("named", "alias") or e["pkg"] is None:
+            raise SpecError("not an interface: %r" % (e,))
+        p = e["pkg"] if e["pkg"] != "" else pkg_of_src[0]
+        key = (e["pkg"], e["n"]) if (e["pkg"], e["n"]) in table else (p, e["n"])
+        d = table.get(key)
+        if d is None:
+            raise SpecError("unresolved %s.%s" % (e["pkg"], e["n"]))
+        if d["kind"] == "alias":
+            return embed(d["target"], d["pkg"], {}, fuel - 1)
+        if d["kind"] == "defined":
+            return embed(d["target"], d["pkg"], {}, fuel - 1)
+        if len(d["tparams"]) != len(e["targs"]):
+            raise SpecError("arity %s" % e["n"])
+        sub2 = dict(zip([tp["n"] for tp in d["tparams"]], [subst_ty(a, sub) for a in e["targs"]]))
+        return collect(d["pkg"], sub2, d["methods"], d["embeds"], fuel - 1)
+
+    def collect(pkg, sub, ms, es, fuel):
+        names = [x["n"] for x in ms]
+        if len(set(names)) != len(names):
+            raise SpecError("duplicate explicit method")
+        out = [{"pkg": pkg, "n": x["n"], "sig": _map_sig(lambda y: subst_ty(y, sub), x["sig"])} for x in ms]
+        for e in es:
+            out += embed(e, pkg, sub, fuel)
+        return out
+    pkg_of_src = [pkg]
+    raw = embed(t, pkg, {}, fuel)
+    seen = {}
+    for x in raw:
+        key = ("" if x["n"][:1].isupper() else x["pkg"], x["n"])
+        if key in seen:
+            a = _json.dumps(_erase({"k": "func", "sig": seen[key]["sig"]}), sort_keys=True)
+            b = _json.dumps(_erase({"k": "func", "sig": x["sig"]}), sort_keys=True)
+            if a != b:
+                raise SpecError("conflict %s" % x["n"])
+        else:
+            seen[key] = x
+    return sorted(seen.values(), key=lambda x: (0 if x["n"][:1].isupper() else 1, x["n"].encode(), x["pkg"].encode()))
+
+
+def self_type(d):
+    """the declared (generic) interface instantiated with its own type parameters"""
+    if d["kind"] == "alias":
+        return {"k": "alias", "pkg": d["pkg"], "n": d["name"], "targs": []}
+    return named(d["pkg"], d["name"], [{"k": "tparam", "n": tp["n"]} for tp in d.get("tparams", [])])
+
+
+BRACKET_ELEMS = [
+    lambda: {"k": "slice", "e": basic("byte")},                                        # ...[]byte
+    lambda: {"k": "array", "len": 4, "e": basic("int")},                               # ...[4]int
+    lambda: {"k": "map", "key": basic("string"), "e": basic("int")},                   # ...map[string]int
+    lambda: {"k": "func", "sig": _S([_P("", {"k": "slice", "e": basic("int")})], [], True)},   # ...func(...int)
+    lambda: {"k": "slice", "e": {"k": "slice", "e": basic("string")}},                 # ...[][]string
+    lambda: {"k": "ptr", "e": {"k": "slice", "e": basic("int")}},                      # ...*[]int
+    lambda: {"k": "chan", "dir": "recv", "e": {"k": "slice", "e": basic("int")}},      # ...<-chan []int
+    lambda: {"k": "slice", "e": named("", "Local")},                                   # ...[]Local
+    lambda: {"k": "array", "len": 0, "e": {"k": "slice", "e": basic("error")}},        # ...[0][]error
+    lambda: {"k": "alias", "pkg": "", "n": "AliasC", "targs": []},                     # ...AliasC
+]
+
+
+def bracket_variadic_method(g, name, tparams=()):
+    """a variadic method whose element type starts with a bracket (or another prefix operator)"""
+    elem = g.rng.choice(BRACKET_ELEMS)()
+    if tparams and g.rng.random() < 0.3:
+        elem = {"k": "slice", "e": {"k": "tparam", "n": g.rng.choice(list(tparams))["n"]}}      # ...[]T
+    ns = g.names(g.rng.choice([1, 1, 2, 3]), allow_blank=False)      # all named (distinct) or all unnamed
+    pre = [_P(n, g.ty(list(tparams), 2)) for n in ns[:-1]]
+    last = ns[-1]
+    res = [_P("", basic("error"))] if g.rng.random() < 0.5 else []
+    return {"n": name, "sig": _S(pre + [_P(last, {"k": "slice", "e": elem})], res, True)}
+
+
+def embedding_shapes(g, m, depth=4, n_random=4):
+    """Adds to m (a module made by g.module()): m["extra_decls"] - chains of local interfaces of the
+    given depth (plain, generic, with an unexported method), aliases of interfaces, types defined from
+    interfaces, diamonds, an embedded interface literal, error, explicit+embedded overlap, the static
+    foreign chain - and n_random interfaces in m["ifaces"] that embed a random selection of all this.
+    Every produced interface has a well-defined method set (checked with spec_method_set)."""
+    rng = g.rng
+    T = lambda n: {"k": "tparam", "n": n}
+    anyc, cmpc = basic("any"), {"k": "named", "pkg": None, "n": "comparable", "targs": []}
+    has_ext = len(m["ext"]) >= 3
+    ex = list(foreign_extra_decls(m["ext"])) if has_ext else []
+    L = []
+
+    def meths(prefix, k, tps=(), bracket=0.35):
+        out = []
+        for j in range(k):
+            n = "%s%d" % (prefix, j)
+            out.append(bracket_variadic_method(g, n, tps) if rng.random() < bracket else {"n": n, "sig": g.sig(list(tps), 0)})
+        return out
+    # chain Ch1 <- Ch2 <- ... (Ch_k embeds Ch_{k-1})
+    D = rng.randint(2, depth)
+    for k in range(1, D + 1):
+        emb = [named("", "Ch%d" % (k - 1))] if k > 1 else []
+        if k > 1 and rng.random() < 0.4:
+            emb.append(rng.choice([named("io", "Closer"), named("fmt", "Stringer"), named("", "LocalIface")]))
+        rng.shuffle(emb)
+        L.append(_I("", "Ch%d" % k, meths("Ch%dM" % k, rng.randint(0 if k > 1 else 1, 2)), emb))
+    # a chain with an unexported method at the bottom (in-package mocks only)
+    L.append(_I("", "lowBase", [{"n": "low", "sig": _S([_P("h", named("", "hidden"))], [_P("", basic("error"))])}]))
+    L.append(_I("", "LowTop", meths("LowTopM", 1), [named("", "lowBase")]))
+    # generic chain with a diamond through identical instantiations
+    tT = [{"n": "T", "c": anyc, "cmp": False}]
+    L.append(_I("", "GCh1", [{"n": "G1Get", "sig": _S([], [_P("", T("T"))])},
+                             {"n": "G1Put", "sig": _S([_P("vs", {"k": "slice", "e": T("T")})], [], True)}], tparams=tT))
+    tKV = [{"n": "K", "c": cmpc, "cmp": True}, {"n": "V", "c": anyc, "cmp": False}]
+    L.append(_I("", "GCh2", [{"n": "G2Key", "sig": _S([_P("k", T("K"))], [_P("", {"k": "slice", "e": T("V")}), _P("", basic("error"))])}],
+                [named("", "GCh1", [T("V")])], tparams=tKV))
+    tE = [{"n": "E", "c": rng.choice([anyc, named("", "Num"), cmpc]), "cmp": False}]
+    tE[0]["cmp"] = tE[0]["c"] is not anyc
+    L.append(_I("", "GCh3", meths("G3M", 1, tE), [named("", "GCh2", [basic("string"), T("E")]), named("", "GCh1", [T("E")])], tparams=tE))
+    # aliases of interfaces
+    A = lambda n, tgt: {"pkg": "", "kind": "alias", "name": n, "target": tgt}
+    L += [A("RC", named("io", "ReadCloser")), A("ChA", named("", "Ch%d" % min(2, D))), A("GenInt", named("", "Gen", [basic("int")])),
+          A("G1Str", named("", "GCh1", [basic("string")]))]
+    if has_ext:
+        L.append(A("HA", named(m["ext"][0]["path"], "Handler")))
+        L.append(A("TopA", named(m["ext"][2]["path"], "Top")))
+    # types defined from interfaces
+    Dd = lambda n, tgt: {"pkg": "", "kind": "defined", "name": n, "target": tgt}
+    L += [Dd("RWC", named("io", "ReadWriteCloser")), Dd("DefCh", named("", "Ch%d" % D)), Dd("DefGen", named("", "Gen", [basic("string")])),
+          Dd("DefRC", {"k": "alias", "pkg": "", "n": "RC", "targs": []})]
+    # diamonds
+    L += [_I("", "DmL", meths("DmLM", 1), [named("", "Ch1")]), _I("", "DmR", meths("DmRM", 1), [named("", "Ch1")]),
+          _I("", "Dm", [], [named("", "DmL"), named("", "DmR")]),
+          _I("", "DmStd", [], [named("io", "ReadCloser"), named("io", "WriteCloser"), named("io", "ReadWriter")])]
+    # embedded literal, error, explicit + embedded overlap
+    L.append(_I("", "Lit", [bracket_variadic_method(g, "LitB")],
+                [{"k": "iface", "methods": [{"n": "LitA", "sig": _S([], [_P("", basic("int"))])}], "embeds": [named("io", "Closer")]}]))
+    L.append(_I("", "Coded", [{"n": "Code", "sig": _S([], [_P("", basic("int"))])}], [basic("error")]))
+    L.append(_I("", "Ovl", [{"n": "Close", "sig": _S([], [_P("", basic("error"))])}],
+                [named("io", "Closer"), {"k": "alias", "pkg": "", "n": "RC", "targs": []}]))
+    m["extra_decls"] = ex + L
+    # random interfaces embedding a selection
+    table = decl_table(m)
+
+    def candidates(tps):
+        anyt = lambda: rng.choice([basic("int"), basic("string"), named("", "Local"), {"k": "slice", "e": basic("byte")}] + [T(tp["n"]) for tp in tps])
+        cmpt = lambda: rng.choice([basic("int"), basic("string"), named("", "Key")] + [T(tp["n"]) for tp in tps if tp.get("cmp")])
+        c = [named("", "Ch%d" % rng.randint(1, D)), named("", "Dm"), named("", "DmStd"), named("", "Lit"), named("", "Coded"), named("", "Ovl"),
+             named("", "DefCh"), named("", "RWC"),
+             {"k": "alias", "pkg": "", "n": "RC", "targs": []}, {"k": "alias", "pkg": "", "n": "ChA", "targs": []},
+             {"k": "alias", "pkg": "", "n": "GenInt", "targs": []}, {"k": "alias", "pkg": "", "n": "G1Str", "targs": []},
+             named("", "Gen", [anyt()]), named("", "GCh1", [anyt()]), named("", "GCh2", [cmpt(), anyt()]), named("", "GCh3", [rng.choice([basic("int"), basic("string")])]),
+             named("io", rng.choice(["ReadWriteCloser", "ReadSeeker", "ReadWriteSeeker", "StringWriter", "ReadCloser"])),
+             named("hash", "Hash32"), named("hash", "Hash"), named("sort", "Interface"), named("fmt", "Stringer"), named("context", "Context"),
+             basic("error"),
+             {"k": "iface", "methods": [{"n": "Inline", "sig": _S([_P("xs", {"k": "slice", "e": {"k": "array", "len": 4, "e": basic("int")}})], [], True)}], "embeds": [named("fmt", "Stringer")]}]
+        if has_ext:
+            a, b, c3 = m["ext"][0]["path"], m["ext"][1]["path"], m["ext"][2]["path"]
+            c += [named(c3, "Top"), named(b, "Deep"), named(a, "Chain"), named(a, "Source", [anyt()]), named(b, "Stream", [cmpt(), anyt()]),
+                  {"k": "alias", "pkg": "", "n": "HA", "targs": []}, {"k": "alias", "pkg": "", "n": "TopA", "targs": []}]
+        return c
+    added = []
+    for j in range(n_random):
+        tps = []
+        if rng.random() < 0.4:
+            for n in rng.sample(["T", "K", "V", "E"], rng.randint(1, 2)):
+                c, cmp_ = g.constraint(tps)
+                tps.append({"n": n, "c": c, "cmp": cmp_})
+        embeds = rng.sample(candidates(tps), rng.randint(1, 3))
+        name = "Emb%d" % j
+        i = {"name": name, "tparams": tps, "methods": meths(name + "M", rng.randint(0, 2), tps, bracket=0.5), "embeds": embeds, "exported": True}
+        while True:
+            try:
+                table[("", name)] = _I("", name, i["methods"], i["embeds"], tps)
+                spec_method_set(table, self_type(table[("", name)]), "")
+                break
+            except SpecError:
+                i["embeds"] = i["embeds"][:-1]
+        added.append(i)
+    m["ifaces"] = m["ifaces"] + added
+    return m
+
+
+def _decl_pkgs(d, acc):
+    for tp in d.get("tparams", []):
+        collect_pkgs(tp["c"], acc)
+    for mm in d.get("methods", []):
+        collect_sig(mm["sig"], acc)
+    for e in d.get("embeds", []):
+        collect_pkgs(e, acc)
+    if "target" in d:
+        collect_pkgs(d["target"], acc)
+    return acc
+
+
+def extra_decl_files(m):
+    """{relative path: content}: one file zz_extra.go per package that has entries in m["extra_decls"]."""
+    by_pkg = {}
+    for d in m.get("extra_decls", []):
+        by_pkg.setdefault(d["pkg"], []).append(d)
+    files = {}
+    stds = {s["path"]: s for s in m["std"] + C02_STD}
+    for pkg, decls in by_pkg.items():
+        if pkg == "":
+            rel, pname = m["src"]["path"][len(m["mod"]) + 1:], m["src"]["name"]
+        else:
+            e = [x for x in m["ext"] if x["path"] == pkg][0]
+            rel, pname = pkg[len(m["mod"]) + 1:], e["name"]
+        used = set()
+        for d in decls:
+            _decl_pkgs(d, used)
+        used.discard(pkg)
+        qual, imports = {}, []
+        for e in m["ext"]:
+            if e["path"] in used:
+                qual[e["path"]] = e["alias"] or e["name"]
+                imports.append((e["alias"], e["path"]))
+        for p in sorted(used):
+            if p in stds:
+                s = stds[p]
+                qual[p] = s.get("alias") or s["name"]
+                imports.append((s.get("alias", ""), p))
+            elif p == "unsafe":
+                qual[p] = "unsafe"
+                imports.append(("", p))
+        R = Render(qual)
+        out = ["package %s\n" % pname]
+        if imports:
+            out.append("import (")
+            for a, p in imports:
+                out.append('\t%s"%s"' % (a + " " if a else "", p))
+            out.append(")\n")
+        for d in decls:
+            if d["kind"] == "alias":
+                out.append("type %s = %s\n" % (d["name"], R.ty(d["target"])))
+            elif d["kind"] == "defined":
+                out.append("type %s %s\n" % (d["name"], R.ty(d["target"])))
+            else:
+                tp = ""
+                if d["tparams"]:
+                    tp = "[" + ", ".join("%s %s" % (t["n"], R.ty(t["c"])) for t in d["tparams"]) + "]"
+                out.append("type %s%s interface {" % (d["name"], tp))
+                for e in d["embeds"]:
+                    out.append("\t" + R.ty(e))
+                for mm in d["methods"]:
+                    out.append("\t%s%s" % (mm["n"], R.sig(mm["sig"])))
+                out.append("}\n")
+        files[rel + "/zz_extra.go"] = "\n".join(out)
+    return files
+
+
+def write_extra_decls(m, root):
+    for rel, content in extra_decl_files(m).items():
+        p = root / rel
+        p.parent.mkdir(parents=True, exist_ok=True)
+        p.write_text(content)
